@@ -133,6 +133,20 @@ pub fn run_c10(out: &mut Out, rng: &mut Rng, tier: Tier) -> String {
         out.oracle_fail(&format!("zero-sized elements with drop glue: created - dropped = {} after all matrices were dropped, drops beyond creations = {}", z.zst_live, z.zst_overdrops));
     }
     huge_zst(out);
+    // beyond the size thresholds at which an implementation might switch algorithms
+    for &(nr, nc) in &LARGE {
+        for order in ORDERS {
+            out.case(&format!("large swaps shape={nr}x{nc} order={}", ord_ch(order)));
+            out.nontrivial();
+            let mut w = World::<Tok>::new(out);
+            w.new_matrix(out, 0, order, nr, nc, 1);
+            for (a, b) in [(0, nr - 1), (nr / 2, nr / 2), (nr - 1, nr), (1 % nr, nr - 1)] { w.swap_vecs(out, 0, "swap_rows", a, b); }
+            for (a, b) in [(0, nc - 1), (nc / 2, nc / 2), (nc, 0), (1 % nc, nc - 1)] { w.swap_vecs(out, 0, "swap_cols", a, b); }
+            w.swap_elems(out, 0, ('p', 0, 0), ('p', nr as isize - 1, nc as isize - 1));
+            w.swap_elems(out, 0, ('w', -1, -1), ('p', 0, nc as isize - 1));
+            w.drop_reg(out, 0);
+        }
+    }
     let s = snapshot();
     if s.double_drops > 0 || s.live != 0 {
         out.oracle_fail(&format!("ledger at the end of the run: {} tokens still live, {} double drops", s.live, s.double_drops));
